@@ -69,6 +69,9 @@ func propC01(c *Ctx, r *Report) {
 	r.Clauses = append(r.Clauses, orderClause)
 	c.runOperandOrder(r, "order.spirv", inPkgs("spirv"))
 	r.floor("order.spirv", orderFloors["spirv"])
+	r.Clauses = append(r.Clauses, depthLikeClause)
+	c.runDepthLike(r, "image.depthlike", inPkgs("spirv", "ir"))
+	r.floor("image.depthlike", 4)
 	r.floor("tables.OpCode", 150)
 	r.floor("tables.Decoration", 10)
 	r.floor("tables.BuiltIn", 20)
@@ -94,6 +97,9 @@ func propC02(c *Ctx, r *Report) {
 	r.Clauses = append(r.Clauses, "merge before branch (E28, go/cfg must-analysis): in every function of the SPIR-V emitter, on every control-flow path to the emission of an OpBranchConditional or OpSwitch terminator an OpSelectionMerge / OpLoopMerge has been emitted before (directly, through a builder method or through a local closure)")
 	c.runMergeFirst(r, "spirv.mergefirst")
 	r.floor("spirv.mergefirst", 6)
+	r.Clauses = append(r.Clauses, depthLikeClause)
+	c.runDepthLike(r, "image.depthlike", inPkgs("spirv"))
+	r.floor("image.depthlike", 3)
 	r.Clauses = append(r.Clauses, "block open/close typestate (E28, go/cfg): in no function of the SPIR-V emitter is consumeBlock reached on a path on which the current block is definitely closed, nor setCurrentBlock on a path on which a block opened in that function is definitely still open (every block is terminated exactly once and none is dropped)")
 	c.runBlockState(r, "spirv.blockstate")
 	r.floor("spirv.blockstate", 30)
